@@ -73,7 +73,7 @@ WITNESSES = [
     b'1 \r\na\r\n0\r\n\r\n', b'1\t\r\na\r\n0\r\n\r\n', b'1 \t ;a\r\na\r\n0\r\n\r\n', b'1\x0b\r\na\r\n0\r\n\r\n',          # Bug 4492 blanks
     b'1\na\r\n0\r\n\r\n', b'1\r\na\n0\r\n\r\n', b'1\r\na\r0\r\n\r\n', b'1\r\nab\r\n0\r\n\r\n', b'2\r\na\r\n0\r\n\r\n',
     b'1\r\r\na\r\n0\r\n\r\n', b'1\ra\r\n0\r\n\r\n', b'1\r\na\r\n\r\n0\r\n\r\n', b'1\r\na\r\n0\n\r\n', b'1\r\na0\r\n\r\n',
-    b'1;a\r\na\r\n0\r\n\r\n', b'1;a=b\r\na\r\n0\r\n\r\n', b'1;a="b c"\r\na\r\n0\r\n\r\n', b'1;a="b\\"c"\r\na\r\n0\r\n\r\n',
+    b'1;a\r\na\r\n0\r\n\r\n', b'1;a=b\r\na\r\n0\r\n\r\n', b'1;abc=def\r\na\r\n0\r\n\r\n', b'1;abc\r\na\r\n0;xyz\r\nAb: cd\r\n\r\n', b'1f\r\n' + b'z' * 31 + b'\r\n0\r\n\r\n', b'1;a="b c"\r\na\r\n0\r\n\r\n', b'1;a="b\\"c"\r\na\r\n0\r\n\r\n',
     b'1;a=""\r\na\r\n0\r\n\r\n', b'1 ; a = b ; c\r\na\r\n0\r\n\r\n', b'1;a;b;c=d\r\na\r\n0;z=1\r\n\r\n', b'1;a="\x80\xff"\r\na\r\n0\r\n\r\n',
     b'1;\r\na\r\n0\r\n\r\n', b'1;=b\r\na\r\n0\r\n\r\n', b'1;a=\r\na\r\n0\r\n\r\n', b'1;a="b\r\na\r\n0\r\n\r\n', b'1;a="b\x00"\r\na\r\n0\r\n\r\n',
     b'1;a="b\\\r"\r\na\r\n0\r\n\r\n', b'1;a="b\x7f"\r\na\r\n0\r\n\r\n', b'1;a=b c\r\na\r\n0\r\n\r\n', b'1;a b\r\na\r\n0\r\n\r\n',
